@@ -218,6 +218,7 @@ def observe_data(case, rnd):
                     rec["rows"].append(["err", type(r).__name__])
                 else:
                     rec["rows"].append(["ok", list(r)])
+                    r.append("mine now")      # what a consumer does with a row it was handed changes nothing else
             for row in case["table"]:
                 rec["cells"].append([cell_outcome(cid.field_formats[i], v) for i, v in enumerate(row)])
         except Exception as e:  # noqa
